@@ -1091,6 +1091,8 @@ def run_session(ses, seed, workdir, timeout=10.0, keep=False):
     Returns dict(events=[setup, bad, good], info=...)."""
     warnings.simplefilter("ignore")
     sys.setrecursionlimit(1200)
+    if "good" not in ses:       # replay files written before part F existed
+        ses = dict(ses, good=[])
     r = render(ses, seed, workdir)
     api, handle = ses["api"], ses["handle"]
     cwd = os.getcwd()
